@@ -513,7 +513,9 @@ func runServerScenario(sc *scenario) string {
 		}
 	}
 	rawMS, rawHL, rawMB := sc.cfg.rawConfig()
-	fs := &fasthttp.Server{Handler: handler, MaxRequestBodySize: rawMB, NoDefaultServerHeader: true, NoDefaultDate: true, NoDefaultContentType: true, Logger: runLogger{run},
+	// the body limit is read from the fasthttp.Server when a connection is served, not when the server is configured:
+	// it is set after Configure* (a user may raise it at any time)
+	fs := &fasthttp.Server{Handler: handler, MaxRequestBodySize: 1, NoDefaultServerHeader: true, NoDefaultDate: true, NoDefaultContentType: true, Logger: runLogger{run},
 		ReadTimeout: time.Duration(sc.cfg.reqTimeoutMs) * time.Millisecond, IdleTimeout: time.Duration(sc.cfg.idleMs) * time.Millisecond}
 	var srv *http2.Server
 	if sc.cfg.ctor == 2 {
@@ -522,6 +524,7 @@ func runServerScenario(sc *scenario) string {
 	} else {
 		srv = http2.ConfigureServer(fs, http2.ServerConfig{PingInterval: -1, MaxConcurrentStreams: rawMS, MaxHeaderListSize: rawHL})
 	}
+	fs.MaxRequestBodySize = rawMB
 
 	pc := fasthttputil.NewPipeConns()
 	c1, c2 := pc.Conn1(), pc.Conn2()
